@@ -598,6 +598,21 @@ def runC06 : List String → String
       let m : MaskSpec := ⟨wdims, unflatten none shape wcs, g, ge, l, le, e⟩
       showRes (.ok (maskFile f m (parseNames coords) (mc == "1")))
     | _, _, _, _, _, _, _ => "err parse"
+  | ["eval", target, expr, coords, d, v, a, ip] =>
+    -- `eval(..., inplace=True)`: every variable stays, an existing target is replaced by the new variable
+    match parseFile d v a, parseExpr 64 (expr.splitOn ",") with
+    | some f, some (e, []) =>
+      match e.firstVar.bind f.var? with
+      | none => "err novar"
+      | some tv =>
+        match e.eval f tv.data with
+        | none => "err KeyError"
+        | some dat =>
+          let attrs := if tv.attrs.contains "expression" then tv.attrs else tv.attrs ++ ["expression"]
+          let nv : Var := { tv with name := target, data := dat, attrs := attrs, isInt := false }
+          if ip == "1" then showRes (.ok { f with vars := f.vars.filter (fun v => v.name != target) ++ [nv] })
+          else "err bad-op"
+    | _, _ => "err parse"
   | ["eval", target, expr, coords, d, v, a] =>
     match parseFile d v a, parseExpr 64 (expr.splitOn ",") with
     | some f, some (e, []) =>
